@@ -279,7 +279,7 @@ namespace ex
    struct escaped_x : seq< one< 'x' >, rep< 2, xdigit > > {};
    struct escaped_u : seq< one< 'u' >, rep< 4, xdigit > > {};
    struct escaped_U : seq< one< 'U' >, rep< 8, xdigit > > {};
-   struct escaped_c : one< '\'', '"', '?', '\\', 'a', 'b', 'f', 'n', 'r', 't', 'v' > {};
+   struct escaped_c : one< '\'', '"', '?', '\\', 'a', 'b', 'f', 'n', 'r', 't', 'v', '0' > {};  // \0: a permitted character whose value is NUL
    struct escaped : sor< escaped_x, escaped_u, escaped_U, escaped_c > {};
    struct character : if_then_else< one< '\\' >, escaped, utf8::range< 0x20, 0x10FFFF > > {};
    struct literal : seq< one< '"' >, until< one< '"' >, character > > {};
@@ -289,7 +289,7 @@ namespace ex
    template<> struct action< escaped_x > : unescape::unescape_x {};
    template<> struct action< escaped_u > : unescape::unescape_u {};
    template<> struct action< escaped_U > : unescape::unescape_u {};
-   template<> struct action< escaped_c > : unescape::unescape_c< escaped_c, '\'', '"', '?', '\\', '\a', '\b', '\f', '\n', '\r', '\t', '\v' > {};
+   template<> struct action< escaped_c > : unescape::unescape_c< escaped_c, '\'', '"', '?', '\\', '\a', '\b', '\f', '\n', '\r', '\t', '\v', '\0' > {};
 }  // namespace ex
 
 // literal = "...": returns 1 accept / 0 local failure / -1 parse_error
@@ -307,7 +307,7 @@ static int run_literal( const std::string& lit, std::string& out )
 static void check_c_escape( unsigned char c )
 {
    // documented C mapping, typed independently (ISO C 6.4.4.4)
-   static const std::map< char, char > table = { { '\'', 0x27 }, { '"', 0x22 }, { '?', 0x3f }, { '\\', 0x5c }, { 'a', 7 }, { 'b', 8 }, { 'f', 12 }, { 'n', 10 }, { 'r', 13 }, { 't', 9 }, { 'v', 11 } };
+   static const std::map< char, char > table = { { '\'', 0x27 }, { '"', 0x22 }, { '?', 0x3f }, { '\\', 0x5c }, { 'a', 7 }, { 'b', 8 }, { 'f', 12 }, { 'n', 10 }, { 'r', 13 }, { 't', 9 }, { 'v', 11 }, { '0', 0 } };
    R.eval();
    std::string lit = "\"\\";
    lit += char( c );
